@@ -168,4 +168,25 @@ theorem synack_first (v : VSock) (c : Ctx) (hs : v.state = .synReceived) (hm : 0
   simp only [Timer.arm, h2]
   cases v'.timers.synAckResend <;> simp
 
+/-- **The FIN is never withheld once everything before it is acknowledged.** If the peer has acknowledged
+every sequence number before our FIN (`snd_una = fin`) and the FIN has not been sent (`last_sent` is behind
+it, within the comparison tolerance), the clamp leaves `fin − last_sent_seq_nr = 1` — exactly the condition
+under which `maybe_send_fin` emits the FIN (`maybeSendFin_spec`) — wherever `last_sent_seq_nr` had been
+rewound to by an RTO. -/
+theorem fin_not_withheld_after_full_ack (lastSent fin : Nat) (hl : lastSent < 65536) (hf : fin < 65536)
+    (hbehind : 1 ≤ seqSub fin lastSent) (htol : seqSub fin lastSent ≤ Gen.WRAP_TOLERANCE) :
+    seqSub fin (VSock.clampLastSent lastSent fin) = 1 := by
+  unfold VSock.clampLastSent
+  by_cases hc : seqSub lastSent (wsub fin 1) < 0
+  · simp only [hc, if_true]
+    unfold seqSub seqOffset wsub
+    simp only [Gen.WRAP_TOLERANCE]
+    repeat' split
+    all_goals omega
+  · simp only [hc, if_false]
+    unfold seqSub seqOffset wsub at *
+    simp only [Gen.WRAP_TOLERANCE] at *
+    revert hbehind htol hc
+    repeat' split
+    all_goals (intros; omega)
 end UtpVerif.Props.C17
